@@ -767,3 +767,160 @@ func init() {
 			}
 		}})
 }
+
+func init() {
+	register(&Rule{ID: "RST", Min: 10, Text: "identity-preserving restore and retombstone (text: RGATreeSplit.restore/retombstone; tree: Tree.Restore/Retombstone) are idempotent mirror images: a piece is un-tombstoned (SetRemovedAt(nil) / unremove) only on the edge where it is removed, and every un-tombstoned target is appended to the returned list the caller un-registers from GC; a piece is re-tombstoned (SetRemovedAt(t) / remove(t)) only where it is not already removed (the removed edge skips to the next piece), the stamp is the executedAt parameter, and a GC pair whose child is that very target is appended; nodes recreated for purged regions carry the span's original creation ticket, never the ticket of the undo",
+		Run: func(x *Ctx) {
+			type spec struct {
+				fn     string
+				revive bool
+			}
+			removedNE := Cmp{L: vpStamp("removedAt", []string{"removedAt"}, []string{"RemovedAt"}), R: vpNil, Want: NE}
+			isRemoved := isTrue(vpStamp("IsRemoved()", nil, []string{"IsRemoved", "isRemoved"}))
+			n := 0
+			for _, sp := range []spec{{".(*RGATreeSplit).restore", true}, {".(*RGATreeSplit).retombstone", false}, {".(*Tree).Restore", true}, {".(*Tree).Retombstone", false}} {
+				fn := x.fn(crdtPkg + sp.fn)
+				if fn == nil {
+					x.C.Unresolved(x.id(), crdtPkg+sp.fn)
+					continue
+				}
+				k := "func=" + prog.FnName(fn)
+				var ticketParam *ssa.Parameter
+				for _, pm := range fn.Params {
+					if pt, ok := pm.Type().(*types.Pointer); ok && isNamed(pt.Elem(), x.P.Named(timePkg+".Ticket")) {
+						ticketParam = pm
+					}
+				}
+				sites := 0
+				for _, c := range prog.CallsIn(fn) {
+					o := prog.CallObj(c)
+					if o == nil {
+						continue
+					}
+					var target, stamp ssa.Value
+					switch o.Name() {
+					case "SetRemovedAt":
+						target, stamp = recvOf(c), paramArg(c, 0)
+					case "unremove":
+						target = recvOf(c)
+					case "remove":
+						if len(c.Common().Args) >= 2 {
+							target, stamp = recvOf(c), paramArg(c, 0)
+						}
+					}
+					if target == nil {
+						continue
+					}
+					reviving := o.Name() == "unremove" || (o.Name() == "SetRemovedAt" && prog.IsNilConst(stamp))
+					sites++
+					n++
+					sk := fmt.Sprintf("%s site=%s#%d", k, o.Name(), sites)
+					if reviving {
+						ok := x.quietGuarded(c, []Cmp{removedNE}) || x.quietGuarded(c, []Cmp{isRemoved})
+						x.check(ok, sk+" only-a-removed-piece-is-revived", x.pos(c), "reached only on the edge where the piece is removed", "a piece is un-tombstoned without the test that it is removed: a live piece revived again is reported to the caller, which un-registers a GC pair that was never registered")
+						// appended to a returned list
+						app := false
+						for _, ap := range builtinCalls(fn, "append") {
+							if len(ap.Call.Args) < 2 || !prog.MayPrecede(c, ap) {
+								continue
+							}
+							if prog.DependsOn(ap.Call.Args[1], func(w ssa.Value) bool { return prog.Strip(w) == prog.Strip(target) }) && ap.Block() == c.Block() {
+								app = true
+							}
+						}
+						n++
+						x.check(app, sk+" revived-target-reported", x.pos(c), "the revived piece is appended to the list handed back to the caller", "a revived piece is not reported to the caller: its GC pair stays registered and the next garbage collection purges live content")
+						continue
+					}
+					// re-tombstoning
+					okLive := false
+					for _, cm := range []Cmp{removedNE, isRemoved} {
+						if x.quietReject(c, cm) {
+							okLive = true
+						}
+					}
+					x.check(okLive, sk+" only-a-live-piece-is-removed", x.pos(c), "the removed edge skips the piece", "a piece is re-tombstoned without skipping already-removed ones: its removal stamp is overwritten and a second GC pair is registered")
+					n++
+					x.check(ticketParam != nil && stamp != nil && prog.Reaches(stamp, func(w ssa.Value) bool { return w == ssa.Value(ticketParam) }), sk+" stamp=executedAt", x.pos(c), "the tombstone carries the operation's ticket", "the re-tombstoned piece is not stamped with the operation's executedAt")
+					pair := false
+					for _, ap := range builtinCalls(fn, "append") {
+						if len(ap.Call.Args) < 2 || !prog.MayPrecede(c, ap) {
+							continue
+						}
+						if prog.DependsOn(ap.Call.Args[1], func(w ssa.Value) bool { return prog.Strip(w) == prog.Strip(target) }) {
+							pair = true
+						}
+					}
+					n++
+					x.check(pair, sk+" gc-pair-for-the-target", x.pos(c), "a GC pair with that target as child is appended", "no GC pair is returned for the re-tombstoned piece: the tombstone is never purged")
+				}
+				if sites == 0 {
+					x.fail(k+" changes-liveness", x.fpos(fn), "the function no longer changes the liveness of any piece")
+				}
+				// recreated identities (text restore)
+				if sp.revive {
+					i := 0
+					for _, c := range prog.CallsIn(fn) {
+						o := prog.CallObj(c)
+						if o == nil || o.Name() != "NewRGATreeSplitNodeID" {
+							continue
+						}
+						n++
+						i++
+						a := paramArg(c, 0)
+						f := prog.LoadedField(a)
+						if f == nil {
+							if fv, ok := prog.Strip(a).(*ssa.Field); ok {
+								f = prog.FieldVar(fv)
+							}
+						}
+						x.check(f != nil && f.Name() == "createdAt" && (ticketParam == nil || !prog.Reaches(a, func(w ssa.Value) bool { return w == ssa.Value(ticketParam) })), fmt.Sprintf("%s recreated-id#%d=span.createdAt", k, i), x.pos(c), "the recreated node carries the span's original creation ticket", "a recreated node does not carry the original creation ticket of the span: operations of other replicas that address the original identity no longer find it")
+					}
+				}
+			}
+			if n < 10 {
+				x.C.Vacuous(x.id()+" sites", n, 10)
+			}
+		}})
+}
+
+// quietReject: rejectOn without reporting.
+func (x *Ctx) quietReject(site ssa.Instruction, c Cmp) bool {
+	fn := site.Parent()
+	seen, ok := false, true
+	for _, b := range fn.Blocks {
+		iff := prog.IfOf(b)
+		if iff == nil {
+			continue
+		}
+		r, found := relOnTrue(iff.Cond, c.L, c.R, nil)
+		if !found {
+			continue
+		}
+		var bad *ssa.BasicBlock
+		switch {
+		case implies(r, c.Want):
+			bad = b.Succs[0]
+		case implies(negRel(r), c.Want):
+			bad = b.Succs[1]
+		default:
+			continue
+		}
+		seen = true
+		reach := map[*ssa.BasicBlock]bool{}
+		q := []*ssa.BasicBlock{bad}
+		for len(q) > 0 {
+			cur := q[len(q)-1]
+			q = q[:len(q)-1]
+			if reach[cur] || (cur != b && cur.Dominates(b)) || cur == b {
+				continue
+			}
+			reach[cur] = true
+			q = append(q, cur.Succs...)
+		}
+		if reach[site.Block()] {
+			ok = false
+		}
+	}
+	return seen && ok
+}
